@@ -52,6 +52,20 @@ def genC15 (tier : Tier) (seed : Nat) (o : Out) : IO Unit := do
   o.line (permCase "key-clash-unused" "-"
     ["module A\ncustom B\n", "module A::B::C\nstruct X {}\n", "module A::B\nstruct Y {}\n"] (permsOf [0, 1, 2]) "rejected")
   -- a member sharing its key with a nested module of another file (D-15b, repaired: the container clashes with the enclosing module)
+  -- lints whose scope is a module that several files re-open; modules that share their last segment; same names in different modules
+  for (name, verdict, files) in
+      [("shared-scope-lints", "accepted", ["module Shop\n[deprecated(\"use NewId instead\")] custom OldId\ncustom NewId\n", "module Shop\ntypealias CustomerId = OldId\n",
+          "[[allow(Deprecated)]]\nmodule Shop\ntypealias SupplierId = OldId\n"]),
+       ("shared-scope-lints", "accepted", ["module Shop\n[deprecated] interface OldI {}\n", "module Shop\ninterface A : OldI {}\ntypealias TA = Sequence<OldS>\n",
+          "module Shop\ninterface B : OldI {}\n[deprecated] struct OldS {}\ntypealias TB = OldS\n", "module Shop\ntypealias TC = OldS\ninterface C : OldI, A {}\n"]),
+       ("shared-scope-lints", "accepted", ["module Shop\n/// {@link Nope}\ncustom X\n", "module Shop\n/// {@link Nope}\ncustom Y\n/// {@link Nope}\ncustom Z\n", "[[allow(BrokenDocLink)]]\nmodule Shop\n/// {@link Nope}\ncustom W\n"]),
+       ("same-last-segment", "accepted", ["module App::Util\nstruct Id { value: int64 }\nstruct User { id: Id }\n", "module Lib::Util\nenum Id : uint8 { None, Some }\nstruct Item { id: Id }\n"]),
+       ("same-last-segment", "rejected", ["module App::Util\nstruct Id { value: int64 }\nstruct User { id: Id }\n", "module Lib::Util\nstruct Item { id: Id }\n"]),
+       ("same-last-segment", "accepted", ["module Util\ncustom Id\ntypealias T = Id\n", "module App::Util\nstruct Id {}\ntypealias T = Id\n", "module App::Util::Util\nenum Id : uint8 { A }\ntypealias T = Id\nstruct U { a: Util::Id, b: ::Util::Id, c: App::Util::Id }\n"]),
+       ("same-last-segment", "accepted", ["module A::X\ninterface I { op() }\ninterface J : I {}\n", "module B::X\ninterface I { op2() }\ninterface J : I { op() }\n", "module X\ninterface I {}\ninterface K : I, A::X::J, B::X::I {}\n"]),
+       ("same-names-two-modules", "accepted", ["module P\nstruct S { a: T }\ntypealias T = Sequence<E>\nenum E : uint8 { A }\n", "module Q\nstruct S { a: T }\ntypealias T = Dictionary<E, P::S>\nenum E : int32 { B }\n",
+          "module R\nstruct U { p: P::S, q: Q::S, t: P::T, u: Q::T }\n"])] do
+    o.line (permCase name "-" files (permsOf (List.range files.length)) verdict)
   o.line (permCase "d15b-member-module-clash" "-"
     ["module A\n/// See {@link S::T}\nstruct S { T: int32 }\n", "module A::S::T\nstruct X {}\n"] [[0, 1], [1, 0]] "rejected")
   -- conditional compilation must not leak between files: a symbol defined (or undefined) in one file, tested in another
